@@ -15,6 +15,7 @@ TrS == atoi(IOEnv.C01_S)            \* sector size of this trace shard (cfg: Sec
 \* does the tree under test carry the F-C01-a fix (COMPRESS on every sectored file)?  Set by checks/c01.py from the
 \* builder source; only the DRIFT comparison of writer flags depends on it (the verdict uses the observed flags)
 TrFlagFix == "C01_FLAGFIX" \in DOMAIN IOEnv /\ IOEnv.C01_FLAGFIX = "1"
+TrBetFix == "C01_BETFIX" \in DOMAIN IOEnv /\ IOEnv.C01_BETFIX = "1"     \* builder stores lookup3 values in the BET table
 TrKey(nm) == <<0, 0>>               \* key derivation is checked on the model (MC_MpqBuild), not in traces
 VARIABLE tl
 
@@ -54,8 +55,25 @@ DevName(b, pred, errs) ==
     [] pred = "err:crc" -> "lossy-sector-crc"
     [] OTHER -> "none"
 
+\* HET/BET path (observed through the table accessors: e.hb = [tables, cands, ver, classic]; e.idx = the file's block
+\* index, files are added in order).  Verdict: whatever BET verification accepts for a name is that file's own entry
+\* (MpqBuild!HetBetAnswersOwn), and find_file lands on the file's own block.
+HetBetVerdict(e) ==
+  IF e.hb.tables /\ \E j \in 1..Len(e.hb.ver) : e.hb.ver[j] # e.idx THEN "hetbet-verifies-another-file"
+  ELSE IF e.found /\ e.blk # e.idx THEN "find-file-lands-on-another-block"
+  ELSE "ok"
+\* model conformance of the path (DRIFT): with lookup3 values in the BET table (BetFix) the HET/BET path answers for
+\* every added name (MpqBuild!BetFixAnswers); without, nothing ever verifies (MpqBuild!AsIsAlwaysFallsBack)
+HetBetDrift(e) ==
+  IF ~e.hb.tables THEN "none"
+  ELSE IF BetFix /\ e.hb.ver = <<>> THEN "hetbet-path-does-not-answer-for-added-file"
+  ELSE IF ~BetFix /\ e.hb.ver # <<>> THEN "bet-verifies-although-model-says-hash-mismatch"
+  ELSE IF e.hb.classic # e.idx THEN "classic-table-block-differs"
+  ELSE "none"
+
 FileVerdict(e) ==
   IF ~e.found THEN "added-file-not-found"
+  ELSE IF HetBetVerdict(e) # "ok" THEN HetBetVerdict(e)
   ELSE IF \A j \in 1..4 : Exact(e, e.reads[j]) THEN "ok"
   ELSE LET b == ObsBlock(e)
            pred == ReadBlock(b, <<>>)
@@ -72,7 +90,9 @@ FileDrift(e) ==
                THEN "model-predicts-failure-but-code-succeeds"
           ELSE "none"
 
-AbsentVerdict(e) == IF \A j \in 1..4 : e.reads[j] = <<"notfound", "notfound">> THEN "ok" ELSE "absent-name-resolved"
+AbsentVerdict(e) == IF e.hb.ver # <<>> THEN "hetbet-verifies-absent-name"
+                    ELSE IF e.hb.classic >= 0 THEN "classic-table-resolves-absent-name"
+                    ELSE IF \A j \in 1..4 : e.reads[j] = <<"notfound", "notfound">> THEN "ok" ELSE "absent-name-resolved"
 
 ListOk(e) ==
   /\ e.res = "ok"
@@ -109,6 +129,7 @@ Next == /\ tl <= Len(Rec)
                v == Verdict(e) IN
            /\ (IF v = "ok" THEN TRUE ELSE PrintT(<<"BAD", tl, v>>))
            /\ (IF e.ev = "File" /\ FileDrift(e) # "none" THEN PrintT(<<"DRIFT", tl, FileDrift(e)>>) ELSE TRUE)
+           /\ (IF e.ev = "File" /\ HetBetDrift(e) # "none" THEN PrintT(<<"DRIFT", tl, HetBetDrift(e)>>) ELSE TRUE)
 
 Accepted == LET d == TLCGet("stats").diameter IN
             IF d - 1 = Len(Rec) THEN PrintT(<<"CONSUMED", Len(Rec)>>) ELSE Print(<<"TRACE_STUCK_AT", d>>, FALSE)
